@@ -1,4 +1,5 @@
 import RustCcModel.Proofs.CtlSimp
+import RustCcModel.Proofs.InvReach
 /-! # C13 — `try_unwrap` returns the value iff the pointer is unique, running no destructor -/
 namespace RustCc.C13
 open World
@@ -89,5 +90,26 @@ theorem unwrapped_events (c : Cfg) (w : World) (k : Nat) (x : Id) :
       · left; simp [freeBox, emit, hr]
     · left; simp [freeBox, emit, hr]
   · left; simp [freeBox, emit, hr]
+
+/-- **In every reachable world** the buffer invariant the statement above assumes holds (`Proofs/InvReach.lean`), so a
+successful `try_unwrap` releases the box, moves the value out, leaves the buffer and pushes nothing but the caller's
+drop of the moved value — after any history of operations, callbacks, collections and caught panics. -/
+theorem unwrapped_spec_reachable (c : Cfg) (nH nW nK : Nat) (w : World) (h : Reachable c nH nW nK w) (k : Nat) (x : Id) :
+    (unwrapped c w k x).ret = .unwrapped x ∧
+    ((unwrapped c w k x).heap x).boxLive = false ∧ ((unwrapped c w k x).heap x).valLive = false ∧
+    x ∉ (unwrapped c w k x).pc ∧ (unwrapped c w k x).stack = .dropMoved x :: w.stack := by
+  have hi := (reachable_all c nH nW nK w h).inv
+  exact unwrapped_spec c w k x hi.oi.pcNodup (hi.oi.mPc x)
+
+/-- A unique pointer (count 1) never belongs to an object a frame is destroying, and with the collector idle it is in no
+collector list: `try_unwrap`'s claim "cc is unique, is not inside any list" (the `SAFETY` comment in cc.rs) holds whenever
+its guard passes. -/
+theorem unique_not_owned (c : Cfg) (nH nW nK : Nat) (w : World) (h : Reachable c nH nW nK w) (x : Id)
+    (hr : (w.heap x).rc = 1) (hc : w.collecting = false) :
+    x ∉ zeroed w.stack ∧ x ∉ listed w.stack ∧ (w.heap x).boxLive = true := by
+  have ha := reachable_all c nH nW nK w h
+  have hne : (w.cores x).rc ≠ 0 := by show (w.heap x).rc ≠ 0; omega
+  refine ⟨OI.not_mem_Z_of_rc ha.inv.oi hne, ?_, OI.boxLive_of_rc ha.inv.oi hne⟩
+  rw [listed_nil_of_idle ha.flags ha.inv.wf hc]; simp
 
 end RustCc.C13
